@@ -2,7 +2,8 @@
    src/halmos/__main__.py (_compute_frontier, run_message's depth loop, run_contract's
    initialisation) branch by branch.  Definitions only.
 
-     ctx.frontier_states[0] = [setup_ex];  ctx.visited = {state_id(setup_ex)}
+     ctx.frontier_states[0] = [setup_ex];  ctx.visited = {} -- or {state_id(setup_ex)}: which one is regenerated
+                                            from run_contract (Gen/GenInvFilters.v setup_registered_as_visited)
      for depth in range(max_call_depth + 1):        (run_message)
          for ex in get_frontier(depth):  run the invariant on ex
      _compute_frontier(depth): for pre_ex in frontier[depth-1]:
@@ -17,8 +18,10 @@
    The symbolic engine is a parameter (one transaction from a symbolic state for a
    resolved (contract, selector) target gives a list of outcomes), as are state ids
    (what snapshot_state hashes: balance term id, code identities, storage digests, ids
-   of the sliced path conditions -- NOT the block fields) and the timestamp refresh. *)
+   of the sliced path conditions and of the block fields but the timestamp: modelled in
+   Model/StateIdModel.v over the regenerated snapshot_state) and the timestamp refresh. *)
 From Coq Require Import ZArith List Bool.
+From HV Require Import Model.SetOps Gen.GenInvFilters.
 Import ListNotations.
 Open Scope Z_scope.
 
@@ -76,10 +79,11 @@ Section Frontier.
 
   Variable setup : SS.
   (* run_contract + run_message: the states the invariant is executed on, for --invariant-depth d *)
-  Definition frontiers (d : nat) : list (list SS) := explore d [setup] [sid setup].
+  Definition initial_visited : list Z := if setup_registered_as_visited then [sid setup] else [].
+  Definition frontiers (d : nat) : list (list SS) := explore d [setup] initial_visited.
   Definition evaluated (d : nat) : list SS := concat (frontiers d).
   (* assertion failures inside targets seen while computing the frontiers *)
-  Definition probes (d : nat) : list Z := explore_probes d [setup] [sid setup].
+  Definition probes (d : nat) : list Z := explore_probes d [setup] initial_visited.
 
   (* "ss is the result of exactly k successful target transactions after setUp" *)
   Inductive deep : nat -> SS -> Prop :=
@@ -100,27 +104,7 @@ Arguments OAssert {SS} _.
 Arguments OOk {SS} _.
 
 (* ------------------------------------------------------------------ concrete instances *)
-(* Explicit-state instances (symbolic state = one concrete state, gamma = equality) used
-   for the _refuted witnesses and non-vacuity examples. *)
-
-(* A target with r() = vm.roll(5) and n() = require(block.number == 5); x = 1.
-   State = (x, block.number).  The state id covers storage only. *)
-Module RollInst.
-  Definition St := (Z * Z)%type.
-  Inductive tx := Roll | Need.
-  Definition cstep (s : St) (t : tx) : option St :=
-    match t with
-    | Roll => Some (fst s, 5)
-    | Need => if snd s =? 5 then Some (1, snd s) else None
-    end.
-  Definition targets (_ : St) : list tx := [Roll; Need].
-  Definition sstep (s : St) (t : tx) : list (outcome St) :=
-    match cstep s t with Some s' => [OOk s'] | None => [ORevert] end.
-  Definition sid (s : St) : Z := fst s.
-  Definition refresh (_ s : St) : St := s.
-  Definition setup : St := (0, 1).
-  Definition inv_ok (s : St) : bool := negb (fst s =? 1).
-End RollInst.
+(* Explicit instances used for the remaining _refuted witness (probes) and the examples. *)
 
 (* A target with noop() (succeeds, changes nothing) and late() = require(block.timestamp >= 100); x = 1.
    Symbolic state = (x, lower bound of the timestamp, timestamp is concrete?).  The setup
